@@ -135,6 +135,24 @@ def roundtrip(run, vmf, opts: Dict[str, bool], engine: str, case: Any, features:
         run.count('file_form_exports')
     except Exception as exc:
         run.violation(f'export(file) raised {exc!r}', witness=traceback.format_exc()[-1500:], case=case, engine=engine, key='export-raises')
+    # the default export bumps the map version first; apart from that it is the same text, and the bump is visible on the
+    # object (so a following export without the bump prints exactly what the bumping one printed)
+    if engine == 'generated' and len(text1) % 3 == 0:
+        try:
+            v0 = vmf.map_ver
+            bumped = vmf.export(minimal=minimal, disp_multiblend=multiblend)
+            again = vmf.export(inc_version=False, minimal=minimal, disp_multiblend=multiblend)
+            run.count('version_bumping_exports')
+            if vmf.map_ver != v0 + 1 or bumped != again:
+                run.violation(f'export() with the default inc_version: map_ver went {v0} -> {vmf.map_ver}, and the text '
+                              + ('equals' if bumped == again else 'differs from') + ' a following export(inc_version=False)',
+                              case=case, engine=engine, key='inc-version-export-differs')
+            before = gen_vmf.describe_map(vmf, minimal)
+            text1 = again
+        except Exception as exc:
+            run.violation(f'export() with the default inc_version raised {exc!r}', witness=traceback.format_exc()[-1500:], case=case,
+                          engine=engine, key='export-raises')
+            return None
     if not multiblend:
         strip_multiblend(before)
     normalise_multicolors(before, True)
@@ -287,7 +305,7 @@ def main(run, shard=(0, 1)) -> None:
             run.note_inconclusive(f'could not load seed document {path}: {exc!r}')
     probe.report(run)
     probe.check_reached(run)
-    run.require('exports', 'parses', 'file_form_exports', 'parses_from_file_name', 'colliding_id_documents', 'maps_re_exported_after_edits')
+    run.require('exports', 'parses', 'file_form_exports', 'parses_from_file_name', 'colliding_id_documents', 'maps_re_exported_after_edits', 'version_bumping_exports')
 
 
 def edit_map(vmf, rng) -> int:
